@@ -34,6 +34,10 @@ class InjectedAbort(BaseException):
     """Stands for KeyboardInterrupt / MemoryError / a raising user callback inside a call."""
 
 
+class InjectedError(Exception):
+    """An ordinary exception inside a call (stands for a raising user-supplied line_wrapper callback)."""
+
+
 class DeadlockAbort(BaseException):
     """Unwinds simulated threads after the scheduler found no runnable thread."""
 
@@ -380,7 +384,8 @@ class Scheduler:
         self.code_sites: dict[Any, int] = {}
         self.faults_at: dict[int, list[dict[str, Any]]] = {}
         for f in faults:
-            self.faults_at.setdefault(int(f["step"]), []).append(f)
+            if f.get("call") is None:
+                self.faults_at.setdefault(int(f["step"]), []).append(f)
         self.fired: list[dict[str, Any]] = []
         self.switches: list[list[int]] = []
         self.local: dict[int, int] = {}
@@ -408,6 +413,12 @@ class Scheduler:
         self.site_trace: dict[int, list[int]] | None = None  # tid -> sites (dry runs only)
         self.site_phase: list[str] = []
         self.parked_site: dict[int, int] = {}
+        # aborts addressed relative to a call: {(epoch, tid, call): fault}; armed by the thread body
+        self.call_aborts: dict[tuple[int, int, int], dict[str, Any]] = {}
+        for f in faults:
+            if f.get("call") is not None:
+                self.call_aborts[tuple(f["call"])] = f  # type: ignore[index]
+        self.abort_local: dict[int, tuple[int, dict[str, Any]]] = {}
 
     # -- identification -----------------------------------------------------------------
 
@@ -488,6 +499,11 @@ class Scheduler:
         fl = self.faults_at.get(s)
         if fl is not None:
             self._fire(fl, tid, s)
+        if self.abort_local:
+            al = self.abort_local.get(tid)
+            if al is not None and self.local[tid] >= al[0]:
+                del self.abort_local[tid]
+                self._fire([al[1]], tid, s)
         ready = [t for t in range(self.n) if t != tid and self.state[t] == "ready"]
         to = self.policy.decide(s, tid, site, ready)
         if to is not None and to != tid and to in ready:
@@ -500,6 +516,7 @@ class Scheduler:
 
     def _fire(self, fl: list[dict[str, Any]], tid: int, s: int) -> None:
         abort = False
+        abort_exc = False
         for f in fl:
             k = f["kind"]
             if k == "cache_clear":
@@ -508,11 +525,12 @@ class Scheduler:
                 gc.collect()
             elif k == "abort":
                 abort = True
+                abort_exc = f.get("exc") == "exception"
             self.fired.append({"kind": k, "step": s, "tid": tid, "epoch": self.epoch, "call": self.cur_call.get(tid, -1)})
             self.last_fault_step = s
         if abort:
             self.aborted_calls.add((self.epoch, tid, self.cur_call.get(tid, -1)))
-            raise InjectedAbort()
+            raise (InjectedError("injected") if abort_exc else InjectedAbort())
 
     def _switch(self, frm: int, to: int, site: int = 0, forced: bool = False) -> None:
         self.switches.append([self.epoch, frm, -1 if forced else self.local.get(frm, 0), to])
@@ -523,6 +541,14 @@ class Scheduler:
         self.cur = to
         self.batons[to].release()
         self.batons[frm].acquire()
+
+    def begin_call(self, tid: int, call_index: int) -> None:
+        """Called by the thread body right before a call: arms a call-relative abort, if planned."""
+        self.cur_call[tid] = call_index
+        self.abort_local.pop(tid, None)
+        f = self.call_aborts.get((self.epoch, tid, call_index))
+        if f is not None:
+            self.abort_local[tid] = (self.local.get(tid, 0) + int(f["local"]), f)
 
     # -- blocking on SimLock ------------------------------------------------------------
 
@@ -584,56 +610,94 @@ class Scheduler:
     # -- epoch driver -------------------------------------------------------------------
 
     def run_epoch(self, thread_bodies: list[Any]) -> None:
+        """One epoch with fresh threads (used for dry runs)."""
+        self.run_history([list(thread_bodies)])
+
+    def run_history(self, epochs: list[list[Any]], before_epoch: Any = None) -> None:
         """
-        thread_bodies[i](sched, tid) runs the calls of simulated thread i. Returns when all are done.
+        epochs[e][t] is the body of simulated thread t in epoch e (None: the thread is idle in that
+        epoch). Simulated threads are created once and live for the whole history, like the
+        workers of a thread pool, so per-thread state (threading.local) has a history too. An
+        epoch ends when all its threads have finished their bodies; `before_epoch(e)` runs on
+        the controller between epochs (quiescent point). Stops early on deadlock / step cap.
         """
         global _CURRENT
-        self.n = len(thread_bodies)
-        self.state = ["ready"] * self.n
+        n_epochs = len(epochs)
+        self.n = max((len(ep) for ep in epochs), default=0)
+        if self.n == 0:
+            self.epoch += n_epochs
+            return
+        bodies = [[(ep[t] if t < len(ep) else None) for ep in epochs] for t in range(self.n)]
         self.batons = [_allocate_lock() for _ in range(self.n)]
         for b in self.batons:
             b.acquire()
         self.idents = {}
-        self.waiting = {}
-        self.phase = {}
-        self.cur_call = {}
-        self.parked_site = {}
-        self.local = {}
-        self.cur = None
         self.ctrl.acquire(False)  # make sure it is held; thread_done() releases it
         started = [_allocate_lock() for _ in range(self.n)]
         for lk in started:
             lk.acquire()
+        stop = [False]
 
         def runner(tid: int) -> None:
             self.idents[_get_ident()] = tid
             started[tid].release()
-            self.batons[tid].acquire()
             tracer = self.make_tracer(tid)
-            try:
-                thread_bodies[tid](self, tid, tracer)
-            except DeadlockAbort:
-                pass
-            except StepCap:
-                pass
-            finally:
-                sys.settrace(None)
-                self.thread_done(tid)
+            for e in range(n_epochs):
+                body = bodies[tid][e]
+                if body is None:
+                    continue
+                self.batons[tid].acquire()
+                if stop[0]:
+                    return
+                try:
+                    body(self, tid, tracer)
+                except DeadlockAbort:
+                    pass
+                except StepCap:
+                    pass
+                finally:
+                    sys.settrace(None)
+                    self.thread_done(tid)
 
+        prev_current = _CURRENT
         _CURRENT = self
         try:
             for t in range(self.n):
                 _thread.start_new_thread(runner, (t,))
             for lk in started:
                 lk.acquire()
-            first = self.policy.pick(self.step, list(range(self.n)))
-            self.switches.append([self.epoch, -1, 0, first])
-            self.cur = first
-            self.batons[first].release()
-            self.ctrl.acquire()
+            for e in range(n_epochs):
+                active = [t for t in range(self.n) if bodies[t][e] is not None]
+                if before_epoch is not None:
+                    before_epoch(e)
+                    _CURRENT = self  # (a nested dry-run scheduler restores it, but be explicit)
+                if not active:
+                    self.epoch += 1
+                    continue
+                self.state = ["ready" if t in active else "done" for t in range(self.n)]
+                self.waiting = {}
+                self.phase = {}
+                self.cur_call = {}
+                self.parked_site = {}
+                self.local = {}
+                self.cur = None
+                first = self.policy.pick(self.step, active)
+                self.switches.append([self.epoch, -1, 0, first])
+                self.cur = first
+                self.batons[first].release()
+                self.ctrl.acquire()
+                self.epoch += 1
+                if self.deadlock or self.cap_hit:
+                    break
         finally:
-            _CURRENT = None
-        self.epoch += 1
+            # let threads that still wait for a later epoch leave
+            stop[0] = True
+            for t in range(self.n):
+                try:
+                    self.batons[t].release()
+                except RuntimeError:
+                    pass
+            _CURRENT = prev_current
 
     def digest(self) -> str:
         return self.hash.hexdigest()
